@@ -61,24 +61,22 @@ Proof. exact constructed_stream_epochs. Qed.
 Theorem C20_fields_aligned :
   forall (gen : Type) (randperm : gen -> nat -> list nat * gen),
   (forall (g : gen) (n : nat), Permutation (fst (randperm g n)) (seq 0 n)) ->
-  forall s : dstate gen, (1 <= batch_size (cfg s))%Z ->
+  forall s : dstate gen, wf_data (data s) -> (1 <= batch_size (cfg s))%Z ->
   exists idx : list nat,
     Permutation idx (seq 0 (nrows (data s))) /\
     (forall (j : nat) (k : fname) (rows : list row), nth_error (data s) j = Some (k, rows) ->
+       length rows = nrows (data s) /\
        concat (map (batch_field j) (fst (iter gen randperm s))) = map (fun i : nat => nth i rows []) idx /\
        Forall (fun b : list (fname * list row) => map fst b = map fst (data s)) (fst (iter gen randperm s))).
 Proof. exact iter_fields_aligned. Qed.
 
-(* the same for a given perm, and row by row: row r of batch b is stored row perm[b*bs+r] in EVERY field *)
-Theorem C20_fields_aligned_given_perm : forall (d : dataset) (perm : list nat) (bs : Z),
-  (1 <= bs)%Z -> length perm = nrows d ->
-  forall (j : nat) (k : fname) (rows : list row), nth_error d j = Some (k, rows) ->
-  concat (map (batch_field j) (epoch d perm bs)) = map (fun i : nat => nth i rows []) perm.
-Proof. exact fields_aligned. Qed.
+(* row by row, for a given answer of randperm: row r of batch b is stored row perm[b*bs+r]
+   (an index inside the stored rows) in EVERY field *)
 Theorem C20_fields_aligned_rowwise : forall (d : dataset) (perm : list nat) (bs : Z),
-  (1 <= bs)%Z -> length perm = nrows d ->
+  wf_data d -> (1 <= bs)%Z -> Permutation perm (seq 0 (nrows d)) ->
   forall (j : nat) (k : fname) (rows : list row) (b r : nat), nth_error d j = Some (k, rows) ->
   r < Z.to_nat bs -> b * Z.to_nat bs + r < nrows d ->
+  nth (b * Z.to_nat bs + r) perm 0 < length rows /\
   nth r (batch_field j (nth b (epoch d perm bs) [])) [] = nth (nth (b * Z.to_nat bs + r) perm 0) rows [].
 Proof. exact fields_aligned_rowwise. Qed.
 
